@@ -31,6 +31,18 @@ def checkStep (c : Cfg) (D : Dir) (acc : Option Bool) (e : Bytes × Node) : Opti
         else
           if has D (u ++ adminExt) then none else some found
 
+theorem checkUserFile_valid {n u : Bytes} {v a : Bool} (h : checkUserFile n = some (v, u, a)) :
+    v = validName u := by
+  simp only [checkUserFile] at h
+  by_cases h1 : extOf n = adminExt
+  · simp only [h1, if_true, Option.some.injEq, Prod.mk.injEq] at h
+    rw [← h.1, ← h.2.1]
+  · by_cases h2 : extOf n = userExt
+    · have hne : ¬ userExt = adminExt := by decide
+      simp only [h2, hne, if_false, if_true, Option.some.injEq, Prod.mk.injEq] at h
+      rw [← h.1, ← h.2.1]
+    · simp [h1, h2] at h
+
 theorem check_unfold (c : Cfg) (d : Dir) :
     check c d = (match d.foldl (checkStep c d) (some false) with | some true => true | _ => false) := by
   unfold check
